@@ -33,6 +33,7 @@ import (
 	"math/big"
 	"os"
 	"path/filepath"
+	"regexp"
 	"sort"
 	"strings"
 
@@ -81,6 +82,24 @@ var modelCalls = map[string]struct{ lean, partial string }{
 const fixedPath = "github.com/richardwilkes/toolbox/xmath/fixed"
 const f64Path = "github.com/richardwilkes/toolbox/xmath/fixed/f64"
 const f128Path = "github.com/richardwilkes/toolbox/xmath/fixed/f128"
+const geomPath = "github.com/richardwilkes/toolbox/xmath/geom"
+
+// need: the type-class instances on the abstract coordinate type α that the function being translated uses
+var needHook = func(string) {}
+
+var needOrder = []string{"Add", "Sub", "Mul", "Div", "Neg", "LE", "LT", "Max", "Min", "DecidableLE", "DecidableLT", "DecidableEq"}
+
+// isNumTP: a type parameter whose constraint is a type set without methods (xmath.Numeric, constraints.Float …).  Its
+// values are translated over an abstract Lean type α with the exact operations `+ - * /`, the order and `max` / `min`
+// (machine overflow and float rounding are outside the theorems that use these definitions).
+func isNumTP(t types.Type) bool {
+	tp, ok := types.Unalias(t).(*types.TypeParam)
+	if !ok || cur.name != "geom" {
+		return false
+	}
+	iface, isI := tp.Constraint().Underlying().(*types.Interface)
+	return isI && iface.NumMethods() == 0 && !iface.IsMethodSet()
+}
 
 var targets = map[string]*target{
 	"num": {name: "num", pkgs: []string{pkgPath}, prefix: map[string]string{pkgPath: ""}, display: map[string]string{pkgPath: ""},
@@ -92,6 +111,11 @@ var targets = map[string]*target{
 		display: map[string]string{f128Path: "f128.", pkgPath: "num."}, allowDiv: true, aux: []string{pkgPath},
 		structs: map[string]string{f128Path + ".Int": "F128_Int"},
 		imports: []string{"Generated.SSA_Num", "Lemmas.GenNumModel"}, what: "package xmath/fixed/f128", check: "C03"},
+	"geom": {name: "geom", pkgs: []string{geomPath}, prefix: map[string]string{geomPath: "Geom_"},
+		display: map[string]string{geomPath: "geom."},
+		structs: map[string]string{geomPath + ".Point": "Geom_Point", geomPath + ".Size": "Geom_Size", geomPath + ".Rect": "Geom_Rect",
+			geomPath + ".Insets": "Geom_Insets", geomPath + ".Matrix": "Geom_Matrix"},
+		imports: []string{"Lemmas.GenAttr"}, what: "package xmath/geom", check: "C18"},
 }
 
 var cur = targets["num"]
@@ -143,9 +167,12 @@ type val struct {
 	lean   string   // kStruct: Lean structure name
 	// kPtr
 	alloc *ssa.Alloc
-	fidx  int // -1: the whole object
+	fidx  int   // -1: the whole object
+	sub   []int // further field indexes below fidx (a field of an embedded struct)
 	// kTPZero
 	tp *types.TypeParam
+	// kInt: a value of the abstract numeric type α (not a machine word)
+	num bool
 }
 
 func par(v val) string {
@@ -204,15 +231,26 @@ func structInfo(t types.Type) (lean string, st *types.Struct, ok bool) {
 	if l == "" || !isS {
 		return "", nil, false
 	}
+	generic := false
 	for i := 0; i < s.NumFields(); i++ {
 		ft := s.Field(i).Type()
+		if isNumTP(ft) {
+			generic = true
+			continue
+		}
 		if _, _, isI := intInfo(ft); isI {
 			continue
 		}
-		if _, _, isSt := structInfo(ft); isSt {
+		if fl, _, isSt := structInfo(ft); isSt {
+			if strings.HasSuffix(fl, " α") {
+				generic = true
+			}
 			continue
 		}
 		return "", nil, false
+	}
+	if generic {
+		l += " α"
 	}
 	return l, s, true
 }
@@ -234,6 +272,9 @@ func leanType(t types.Type) string {
 		}
 		return strings.Join(parts, " × ")
 	}
+	if isNumTP(t) {
+		return "α"
+	}
 	if tp, ok := types.Unalias(t).(*types.TypeParam); ok {
 		fail("value of the type parameter %s (its operations depend on the instantiation)", tp.Obj().Name())
 	}
@@ -247,7 +288,19 @@ func lit(x *big.Int, width int) val {
 	return val{k: kInt, e: fmt.Sprintf("%s#%d", r.String(), width), atom: true, cst: new(big.Int).Set(x)}
 }
 
+func numLit(x *big.Int) val {
+	// the OfNat instances are collected from the literals that survive into the emitted body (run)
+	if x.Sign() < 0 {
+		needHook("Neg")
+		return val{k: kInt, num: true, e: "-(" + new(big.Int).Neg(x).String() + " : α)"}
+	}
+	return val{k: kInt, num: true, e: "(" + x.String() + " : α)", atom: true}
+}
+
 func zeroOf(t types.Type) val {
+	if isNumTP(t) {
+		return numLit(big.NewInt(0))
+	}
 	if w, _, ok := intInfo(t); ok {
 		return lit(big.NewInt(0), w)
 	}
@@ -286,7 +339,7 @@ func namedStruct(name string, t types.Type) val {
 		if _, _, isSt := structInfo(st.Field(i).Type()); isSt {
 			v.fields = append(v.fields, namedStruct(fn, st.Field(i).Type()))
 		} else {
-			v.fields = append(v.fields, val{k: kInt, e: fn, atom: true})
+			v.fields = append(v.fields, val{k: kInt, e: fn, atom: true, num: isNumTP(st.Field(i).Type())})
 		}
 	}
 	return v
@@ -309,6 +362,9 @@ func namedOfType(name string, t types.Type) val {
 	case isBool(t):
 		return val{k: kBool, e: name, atom: true}
 	default:
+		if isNumTP(t) {
+			return val{k: kInt, num: true, e: name, atom: true}
+		}
 		if _, _, ok := intInfo(t); ok {
 			return val{k: kInt, e: name, atom: true}
 		}
@@ -339,8 +395,9 @@ type gen struct {
 	pkg        *ssa.Package // the package being collected / the package of the function being translated
 	pkgs       map[*ssa.Package]*packages.Package
 	partial    map[*ssa.Function]string // translated, but the Go function panics on some inputs (why)
-	aux        map[*ssa.Package]bool    // auxiliary packages (referenced, not emitted)
-	modelTaken map[string]string        // functions of auxiliary packages taken by the hand-written model
+	need       map[*ssa.Function]map[string]bool
+	aux        map[*ssa.Package]bool // auxiliary packages (referenced, not emitted)
+	modelTaken map[string]string     // functions of auxiliary packages taken by the hand-written model
 	tpkg       *packages.Package
 	fns        []*ssa.Function
 	names      map[*ssa.Function]string // display name: Uint128.Add
@@ -447,12 +504,14 @@ func (g *gen) translate(f *ssa.Function) (ok bool) {
 // ---------------------------------------------------------------------------------------------------------- one function
 
 type fnTrans struct {
-	g       *gen
-	f       *ssa.Function
-	paths   int
-	ipdom   map[*ssa.BasicBlock]*ssa.BasicBlock
-	dict    map[*types.TypeParam]map[string]val // the methods of the constraint of each type parameter
-	partial []string
+	g        *gen
+	f        *ssa.Function
+	paths    int
+	ipdom    map[*ssa.BasicBlock]*ssa.BasicBlock
+	dict     map[*types.TypeParam]map[string]val // the methods of the constraint of each type parameter
+	partial  []string
+	abstract int             // number of abstract numeric type parameters (0 or 1)
+	need     map[string]bool // instances on α
 }
 
 // dictionary builds the Lean parameters that stand for the type parameters of f
@@ -462,6 +521,13 @@ func (t *fnTrans) dictionary() []string {
 	tps := t.f.TypeParams()
 	for k := 0; k < tps.Len(); k++ {
 		tp := tps.At(k)
+		if isNumTP(tp) {
+			t.abstract++
+			if t.abstract > 1 {
+				fail("two numeric type parameters (a conversion between coordinate types)")
+			}
+			continue
+		}
 		iface, ok := tp.Constraint().Underlying().(*types.Interface)
 		if !ok {
 			fail("type parameter %s without an interface constraint", tp.Obj().Name())
@@ -581,6 +647,10 @@ func (t *fnTrans) run() string {
 		resT = leanType(sig.Results())
 	}
 	e := &env{vals: map[ssa.Value]val{}, mem: map[*ssa.Alloc]val{}}
+	t.need = map[string]bool{}
+	saved := needHook
+	needHook = func(k string) { t.need[k] = true }
+	defer func() { needHook = saved }()
 	params := t.dictionary()
 	used := map[string]bool{}
 	for _, p := range params {
@@ -609,6 +679,35 @@ func (t *fnTrans) run() string {
 	}
 	t.postDominators()
 	body := tidy(render(t.walk(f.Blocks[0], -1, e, nil, false), 1))
+	if t.abstract > 0 {
+		// the abstract coordinate type and the instances the body (and its callees) use
+		for _, m := range regexp.MustCompile(`\((\d+) : α\)`).FindAllStringSubmatch(body, -1) {
+			t.need["OfNat "+m[1]] = true
+		}
+		binders := []string{"{α : Type}"}
+		for _, k := range needOrder {
+			if t.need[k] {
+				binders = append(binders, "["+k+" α]")
+			}
+		}
+		var lits []string
+		for k := range t.need {
+			if strings.HasPrefix(k, "OfNat ") {
+				lits = append(lits, strings.TrimPrefix(k, "OfNat "))
+			}
+		}
+		sort.Slice(lits, func(a, b int) bool {
+			if len(lits[a]) != len(lits[b]) {
+				return len(lits[a]) < len(lits[b])
+			}
+			return lits[a] < lits[b]
+		})
+		for _, l := range lits {
+			binders = append(binders, "[OfNat α "+l+"]")
+		}
+		params = append(binders, params...)
+		t.g.need[f] = t.need
+	}
 	return fmt.Sprintf("@[gen_def] def %s %s : %s :=\n%s\n", t.g.lname[f], strings.Join(params, " "), resT, body)
 }
 
@@ -660,6 +759,14 @@ func (t *fnTrans) get(x ssa.Value, e *env) val {
 		}
 		if c.Value == nil {
 			return zeroOf(c.Type())
+		}
+		if isNumTP(c.Type()) {
+			iv := constant.ToInt(c.Value)
+			if iv.Kind() != constant.Int {
+				fail("non-integer constant (%s) of the abstract numeric type", c.Value.String())
+			}
+			bi, _ := new(big.Int).SetString(iv.ExactString(), 10)
+			return numLit(bi)
 		}
 		if w, _, ok := intInfo(c.Type()); ok {
 			bi, exact := constant.Val(constant.ToInt(c.Value)).(*big.Int)
@@ -744,10 +851,14 @@ func (t *fnTrans) walk(b *ssa.BasicBlock, predIdx int, e *env, stop *ssa.BasicBl
 			e.vals[i] = val{k: kPtr, alloc: i, fidx: -1}
 		case *ssa.FieldAddr:
 			p := t.get(i.X, e)
-			if p.k != kPtr || p.fidx != -1 {
+			if p.k != kPtr {
 				fail("field address of a non-local object")
 			}
-			e.vals[i] = val{k: kPtr, alloc: p.alloc, fidx: i.Field}
+			if p.fidx == -1 {
+				e.vals[i] = val{k: kPtr, alloc: p.alloc, fidx: i.Field}
+			} else {
+				e.vals[i] = val{k: kPtr, alloc: p.alloc, fidx: p.fidx, sub: append(append([]int(nil), p.sub...), i.Field)}
+			}
 		case *ssa.Store:
 			p := t.get(i.Addr, e)
 			if p.k != kPtr {
@@ -757,10 +868,7 @@ func (t *fnTrans) walk(b *ssa.BasicBlock, predIdx int, e *env, stop *ssa.BasicBl
 			if p.fidx < 0 {
 				e.mem[p.alloc] = v
 			} else {
-				old := e.mem[p.alloc]
-				nf := append([]val(nil), old.fields...)
-				nf[p.fidx] = v
-				e.mem[p.alloc] = val{k: kStruct, lean: old.lean, fields: nf}
+				e.mem[p.alloc] = setPath(e.mem[p.alloc], append([]int{p.fidx}, p.sub...), v)
 			}
 		case *ssa.UnOp:
 			t.bind(i, t.unop(i, e), e, &out)
@@ -870,6 +978,19 @@ func (t *fnTrans) walk(b *ssa.BasicBlock, predIdx int, e *env, stop *ssa.BasicBl
 	}
 	fail("block without terminator")
 	return nil
+}
+
+// setPath returns the struct value v with the field at `path` replaced by nv
+func setPath(v val, path []int, nv val) val {
+	if len(path) == 0 {
+		return nv
+	}
+	if v.k != kStruct {
+		fail("field of a non-struct")
+	}
+	nf := append([]val(nil), v.fields...)
+	nf[path[0]] = setPath(nf[path[0]], path[1:], nv)
+	return val{k: kStruct, lean: v.lean, fields: nf}
 }
 
 // edge follows the k-th successor edge of b
@@ -1200,7 +1321,14 @@ func (t *fnTrans) unop(i *ssa.UnOp, e *env) val {
 		if p.fidx < 0 {
 			return m
 		}
-		return m.fields[p.fidx]
+		m = m.fields[p.fidx]
+		for _, k := range p.sub {
+			if m.k != kStruct {
+				fail("field of a non-struct")
+			}
+			m = m.fields[k]
+		}
+		return m
 	case token.NOT:
 		x := t.get(i.X, e)
 		v := val{k: kBool, e: "!" + par(x)}
@@ -1211,6 +1339,10 @@ func (t *fnTrans) unop(i *ssa.UnOp, e *env) val {
 		return v
 	case token.SUB:
 		x := t.get(i.X, e)
+		if isNumTP(i.Type()) {
+			needHook("Neg")
+			return val{k: kInt, num: true, e: "-" + par(x)}
+		}
 		w, _, ok := intInfo(i.Type())
 		if !ok {
 			fail("negation of %s", i.Type().String())
@@ -1246,6 +1378,45 @@ func num(v val, signed bool) string {
 func (t *fnTrans) binop(i *ssa.BinOp, e *env) val {
 	x, y := t.get(i.X, e), t.get(i.Y, e)
 	xt := i.X.Type()
+	if isNumTP(xt) && x.k == kInt && y.k == kInt {
+		cmp := func(op, cls string) val {
+			needHook(cls)
+			needHook("Decidable" + cls)
+			prop := par(x) + " " + op + " " + par(y)
+			return val{k: kBool, e: "decide (" + prop + ")", prop: prop}
+		}
+		ar := func(op, cls string) val {
+			needHook(cls)
+			return val{k: kInt, num: true, e: par(x) + " " + op + " " + par(y)}
+		}
+		switch i.Op {
+		case token.ADD:
+			return ar("+", "Add")
+		case token.SUB:
+			return ar("-", "Sub")
+		case token.MUL:
+			return ar("*", "Mul")
+		case token.QUO:
+			return ar("/", "Div")
+		case token.LSS:
+			return cmp("<", "LT")
+		case token.GTR:
+			return cmp(">", "LT")
+		case token.LEQ:
+			return cmp("≤", "LE")
+		case token.GEQ:
+			return cmp("≥", "LE")
+		case token.EQL, token.NEQ:
+			needHook("DecidableEq")
+			op := " = "
+			if i.Op == token.NEQ {
+				op = " ≠ "
+			}
+			prop := par(x) + op + par(y)
+			return val{k: kBool, e: "decide (" + prop + ")", prop: prop}
+		}
+		fail("operator %s on the abstract numeric type", i.Op)
+	}
 	// comparisons
 	switch i.Op {
 	case token.EQL, token.NEQ, token.LSS, token.LEQ, token.GTR, token.GEQ:
@@ -1274,6 +1445,9 @@ func (t *fnTrans) binop(i *ssa.BinOp, e *env) val {
 			}
 			prop = par(x) + op + par(y)
 		case x.k == kStruct && y.k == kStruct && x.lean == y.lean && (i.Op == token.EQL || i.Op == token.NEQ):
+			if strings.HasSuffix(x.lean, " α") {
+				needHook("DecidableEq")
+			}
 			wx, _ := whole(x)
 			wy, _ := whole(y)
 			op := " = "
@@ -1395,6 +1569,15 @@ func (t *fnTrans) call(i *ssa.Call, e *env) val {
 	callee := i.Call.StaticCallee()
 	if callee == nil {
 		if b, ok := i.Call.Value.(*ssa.Builtin); ok {
+			if (b.Name() == "max" || b.Name() == "min") && len(i.Call.Args) >= 2 && isNumTP(i.Type()) {
+				needHook(strings.ToUpper(b.Name()[:1]) + b.Name()[1:])
+				acc := t.get(i.Call.Args[0], e)
+				for _, a := range i.Call.Args[1:] {
+					n := t.get(a, e)
+					acc = val{k: kInt, num: true, e: b.Name() + " " + par(acc) + " " + par(n)}
+				}
+				return acc
+			}
 			fail("builtin %s", b.Name())
 		}
 		fail("dynamic call")
@@ -1468,6 +1651,9 @@ func (t *fnTrans) call(i *ssa.Call, e *env) val {
 			if why, isPartial := t.g.partial[callee]; isPartial {
 				t.partial = append(t.partial, "calls "+t.g.names[callee]+" ("+why+")")
 			}
+			for k := range t.g.need[callee] {
+				needHook(k)
+			}
 			fn = t.g.lname[callee]
 		}
 		args = append(dargs, args...)
@@ -1493,6 +1679,9 @@ func (t *fnTrans) call(i *ssa.Call, e *env) val {
 	case isBool(rt):
 		return val{k: kBool, e: expr}
 	default:
+		if isNumTP(rt) {
+			return val{k: kInt, num: true, e: expr}
+		}
 		if _, _, ok := intInfo(rt); ok {
 			return val{k: kInt, e: expr}
 		}
@@ -1713,7 +1902,8 @@ func main() {
 	g := &gen{prog: prog, names: map[*ssa.Function]string{}, lname: map[*ssa.Function]string{},
 		state: map[*ssa.Function]int{}, reason: map[*ssa.Function]string{}, text: map[*ssa.Function]string{},
 		globals: map[*ssa.Global]*global{}, gbad: map[*ssa.Global]string{}, pkgs: map[*ssa.Package]*packages.Package{},
-		partial: map[*ssa.Function]string{}, aux: map[*ssa.Package]bool{}, modelTaken: map[string]string{}}
+		partial: map[*ssa.Function]string{}, aux: map[*ssa.Package]bool{}, modelTaken: map[string]string{},
+		need: map[*ssa.Function]map[string]bool{}}
 	nOwn := 0
 	for k, path := range append(append([]string{}, cur.pkgs...), cur.aux...) {
 		tp := byPath[path]
@@ -1825,6 +2015,34 @@ func main() {
 			ks = append(ks, k)
 		}
 		sort.Strings(ks)
+		// a struct after the structs of its fields
+		{
+			var ordered []string
+			done := map[string]bool{}
+			var visit func(k string)
+			visit = func(k string) {
+				if done[k] {
+					return
+				}
+				done[k] = true
+				tp := byPath[k[:strings.LastIndex(k, ".")]]
+				if st, isS := tp.Types.Scope().Lookup(k[strings.LastIndex(k, ".")+1:]).Type().Underlying().(*types.Struct); isS {
+					for i := 0; i < st.NumFields(); i++ {
+						if n, isN := types.Unalias(st.Field(i).Type()).(*types.Named); isN && n.Obj().Pkg() != nil {
+							dep := n.Obj().Pkg().Path() + "." + n.Obj().Name()
+							if _, has := cur.structs[dep]; has {
+								visit(dep)
+							}
+						}
+					}
+				}
+				ordered = append(ordered, k)
+			}
+			for _, k := range ks {
+				visit(k)
+			}
+			ks = ordered
+		}
 		for _, k := range ks {
 			tp := byPath[k[:strings.LastIndex(k, ".")]]
 			obj := tp.Types.Scope().Lookup(k[strings.LastIndex(k, ".")+1:])
@@ -1836,7 +2054,11 @@ func main() {
 			for i := 0; i < st.NumFields(); i++ {
 				fs = append(fs, fmt.Sprintf("  %s : %s", ident(st.Field(i).Name()), leanType(st.Field(i).Type())))
 			}
-			fmt.Fprintf(&sb, "/-- `%s` -/\nstructure %s where\n%s\nderiving DecidableEq\n\n", k[strings.LastIndex(k, "/")+1:], cur.structs[k], strings.Join(fs, "\n"))
+			param := ""
+			if l, _, okS := structInfo(obj.Type()); okS && strings.HasSuffix(l, " α") {
+				param = " (α : Type)"
+			}
+			fmt.Fprintf(&sb, "/-- `%s` -/\nstructure %s%s where\n%s\nderiving DecidableEq\n\n", k[strings.LastIndex(k, "/")+1:], strings.TrimSuffix(cur.structs[k], " α"), param, strings.Join(fs, "\n"))
 		}
 	}
 	for _, gl := range g.gorder {
